@@ -57,6 +57,29 @@ macro_rules! parser_err {
     };
 }
 
+/// Verification hooks (only with `--cfg sqlparser_verif`): a deterministic work counter that is
+/// bumped by every token-cursor move and every depth-guard acquisition.
+#[cfg(sqlparser_verif)]
+pub mod verif_hooks {
+    use core::cell::Cell;
+    std::thread_local! {
+        static STEPS: Cell<u64> = const { Cell::new(0) };
+    }
+    /// Count one unit of parser work.
+    #[inline]
+    pub fn bump() {
+        STEPS.with(|s| s.set(s.get().wrapping_add(1)));
+    }
+    /// Work units counted on this thread since the last [`reset`].
+    pub fn steps() -> u64 {
+        STEPS.with(|s| s.get())
+    }
+    /// Reset the counter of this thread.
+    pub fn reset() {
+        STEPS.with(|s| s.set(0));
+    }
+}
+
 #[cfg(feature = "std")]
 /// Implementation [`RecursionCounter`] if std is available
 mod recursion {
@@ -92,6 +115,8 @@ mod recursion {
         /// Returns a [`DepthGuard`] which will adds 1 to the
         /// remaining depth upon drop;
         pub fn try_decrease(&self) -> Result<DepthGuard, ParserError> {
+            #[cfg(sqlparser_verif)]
+            super::verif_hooks::bump();
             let old_value = self.remaining_depth.get();
             // ran out of space
             if old_value == 0 {
@@ -100,6 +125,14 @@ mod recursion {
                 self.remaining_depth.set(old_value - 1);
                 Ok(DepthGuard::new(Rc::clone(&self.remaining_depth)))
             }
+        }
+    }
+
+    #[cfg(sqlparser_verif)]
+    impl RecursionCounter {
+        /// Verification hook: the remaining recursion depth.
+        pub fn verif_remaining(&self) -> usize {
+            self.remaining_depth.get()
         }
     }
 
@@ -3076,6 +3109,30 @@ impl<'a> Parser<'a> {
         self.dialect.get_next_precedence_default(self)
     }
 
+    /// Verification hook: is the parser in its normal (not CONNECT BY) state?
+    #[cfg(sqlparser_verif)]
+    pub fn verif_state_is_normal(&self) -> bool {
+        matches!(self.state, ParserState::Normal)
+    }
+
+    /// Verification hook: current value of the trailing-comma option.
+    #[cfg(sqlparser_verif)]
+    pub fn verif_trailing_commas(&self) -> bool {
+        self.options.trailing_commas
+    }
+
+    /// Verification hook: remaining recursion depth (restored when a nested construct ends).
+    #[cfg(all(sqlparser_verif, feature = "std"))]
+    pub fn verif_remaining_depth(&self) -> usize {
+        self.recursion_counter.verif_remaining()
+    }
+
+    /// Verification hook: index of the next unprocessed token.
+    #[cfg(sqlparser_verif)]
+    pub fn verif_index(&self) -> usize {
+        self.index
+    }
+
     /// Return the first non-whitespace token that has not yet been processed
     /// (or None if reached end-of-file)
     pub fn peek_token(&self) -> TokenWithLocation {
@@ -3134,6 +3191,8 @@ impl<'a> Parser<'a> {
 
     /// Return nth non-whitespace token that has not yet been processed
     pub fn peek_nth_token(&self, mut n: usize) -> TokenWithLocation {
+        #[cfg(sqlparser_verif)]
+        verif_hooks::bump();
         let mut index = self.index;
         loop {
             index += 1;
@@ -3176,6 +3235,8 @@ impl<'a> Parser<'a> {
     /// (or None if reached end-of-file) and mark it as processed. OK to call
     /// repeatedly after reaching EOF.
     pub fn next_token(&mut self) -> TokenWithLocation {
+        #[cfg(sqlparser_verif)]
+        verif_hooks::bump();
         loop {
             self.index += 1;
             match self.tokens.get(self.index - 1) {
@@ -3202,6 +3263,8 @@ impl<'a> Parser<'a> {
     /// `next_token()`, otherwise might panic. OK to call after
     /// `next_token()` indicates an EOF.
     pub fn prev_token(&mut self) {
+        #[cfg(sqlparser_verif)]
+        verif_hooks::bump();
         loop {
             assert!(self.index > 0);
             self.index -= 1;
